@@ -14,6 +14,18 @@
 (* that were created again and have not been re-checked since), vdone,     *)
 (* obsw (storage writes of this life are observed).                        *)
 (* A failed obligation does not block: it is printed (@@VIOL tag line).    *)
+(*                                                                         *)
+(* History families beyond kill/delete/restart of one torrent:             *)
+(*  - write faults: "wend" with ok = FALSE ends the write of a piece at    *)
+(*    one of its file sections (WriteFail of Resume); nothing else is      *)
+(*    special - the judgement is C05.db / C05.ahead as ever;               *)
+(*  - several torrents in one session: one trace per torrent; "dbsnap" is  *)
+(*    a consistent copy of the database taken while the client runs (what  *)
+(*    a process death at that tick leaves behind - judged like a crash,    *)
+(*    the life goes on), "rewind" restarts from such a copy;               *)
+(*  - move into the session: "up" with mode "movein" (no torrent is added  *)
+(*    by the client), "movereq" carries the bitfield the source sends,     *)
+(*    "absent" = the torrent never got a record (nothing is claimed).      *)
 (***************************************************************************)
 EXTENDS Resume, Json
 
@@ -25,7 +37,7 @@ Ev == Trace[l]
 SetOf(q) == {q[i] : i \in 1 .. Len(q)}
 Note(v) == IF v = "" THEN TRUE ELSE PrintT("@@VIOL " \o v \o " " \o ToString(l))
 
-CfgOf(e) == [np |-> e.np, nf |-> e.nf, fo |-> [p \in 0 .. (e.np - 1) |-> SetOf(e.fo[p + 1])], sync |-> TRUE, design |-> "observed"]
+CfgOf(e) == [np |-> e.np, nf |-> e.nf, fo |-> [p \in 0 .. (e.np - 1) |-> SetOf(e.fo[p + 1])], sync |-> TRUE, design |-> "observed", werr |-> "observed"]
 ClassOf(e) == [p \in Piece |-> e.class[p + 1]]
 ExistOf(e) == [f \in File |-> e.exist[f + 1]]
 Val(k, b) == [known |-> k, bits |-> b]
@@ -44,7 +56,8 @@ TrReset ==
 TrUp ==
     /\ Ev.ev = "up" /\ Restart
     /\ nosync' = {} /\ vdone' = FALSE /\ obsw' = Ev.wrap
-    /\ rmiss' = {f \in File : ~exist[f]}
+    \* (a torrent that is moved in brings its files along: none of them counts as "missing at the start")
+    /\ rmiss' = IF Ev.mode = "movein" THEN {} ELSE {f \in File : ~exist[f]}
     \* values a database update of this life may write before the first snapshot is seen: what was loaded, the
     \* outcome of a verification of the files as they are, and - when files are missing - "unknown" and "empty"
     /\ seen' = {Val(dbKnown, dbBit), Val(TRUE, GoodSet(disk))}
@@ -59,7 +72,7 @@ TrOpen ==
     /\ almiss' = (almiss \/ ~Ev.existed) /\ alexist' = (alexist \/ Ev.existed)
     /\ nosync' = IF Ev.sync THEN nosync ELSE nosync \cup {Ev.f}
     /\ l' = l + 1
-    /\ UNCHANGED <<cfg, disk, dirty, phase, aidx, wr, memKnown, memBit, dbKnown, dbBit, txn, seen, rmiss, recr, vdone, obsw>>
+    /\ UNCHANGED <<cfg, disk, dirty, phase, aidx, wr, sec, wok, memKnown, memBit, dbKnown, dbBit, txn, seen, rmiss, recr, vdone, obsw>>
 
 \* open flags of a data file seen in /proc/self/fdinfo (default storage provider)
 TrOsync ==
@@ -71,7 +84,7 @@ SyncPiece(p) == cfg.fo[p] \cap nosync = {}
 
 TrWBegin ==
     /\ Ev.ev = "wbegin"
-    /\ wr' = [wr EXCEPT ![Ev.p] = "writing"]
+    /\ wr' = [wr EXCEPT ![Ev.p] = "writing"] /\ UNCHANGED <<sec, wok>>
     /\ disk' = [disk EXCEPT ![Ev.p] = "partial"] /\ dirty' = dirty \ {Ev.p}
     /\ l' = l + 1
     /\ UNCHANGED <<cfg, exist, phase, aidx, almiss, alexist, memKnown, memBit, dbKnown, dbBit, txn, nosync, seen, rmiss, recr, vdone, obsw>>
@@ -79,7 +92,7 @@ TrWBegin ==
 \* @obligation C05.osync  a write that returned is durable only through an O_SYNC handle
 TrWEnd ==
     /\ Ev.ev = "wend"
-    /\ wr' = [wr EXCEPT ![Ev.p] = IF Ev.ok THEN "written" ELSE "idle"]
+    /\ wr' = [wr EXCEPT ![Ev.p] = IF Ev.ok THEN "written" ELSE "idle"] /\ UNCHANGED <<sec, wok>>    \* (not ok: WriteFail + FailHandled)
     /\ IF Ev.ok /\ SyncPiece(Ev.p) THEN disk' = [disk EXCEPT ![Ev.p] = "good"] /\ UNCHANGED dirty
        ELSE IF Ev.ok THEN dirty' = dirty \cup {Ev.p} /\ UNCHANGED disk
        ELSE UNCHANGED <<disk, dirty>>
@@ -90,7 +103,7 @@ TrWEnd ==
 TrMem ==
     /\ Ev.ev = "mem"
     /\ memKnown' = Ev.known /\ memBit' = SetOf(Ev.have)
-    /\ wr' = [p \in Piece |-> IF p \in SetOf(Ev.have) /\ wr[p] = "written" THEN "idle" ELSE wr[p]]
+    /\ wr' = [p \in Piece |-> IF p \in SetOf(Ev.have) /\ wr[p] = "written" THEN "idle" ELSE wr[p]] /\ UNCHANGED <<sec, wok>>
     /\ seen' = seen \cup {Val(Ev.known, SetOf(Ev.have))}
     /\ l' = l + 1
     /\ UNCHANGED <<cfg, disk, dirty, exist, phase, aidx, almiss, alexist, dbKnown, dbBit, txn, nosync, rmiss, recr, vdone, obsw>>
@@ -114,7 +127,7 @@ TrSettled ==      \* allocation / verification of a restarted client settled: th
                ELSE "")
     /\ phase' = "run" /\ vdone' = Ev.verified /\ disk' = ClassOf(Ev) /\ exist' = ExistOf(Ev)
     /\ l' = l + 1
-    /\ UNCHANGED <<cfg, dirty, aidx, almiss, alexist, wr, memKnown, memBit, dbKnown, dbBit, txn, nosync, seen, rmiss, recr, obsw>>
+    /\ UNCHANGED <<cfg, dirty, aidx, almiss, alexist, wr, sec, wok, memKnown, memBit, dbKnown, dbBit, txn, nosync, seen, rmiss, recr, obsw>>
 
 TrStats ==
     /\ Ev.ev = "stats"
@@ -152,26 +165,67 @@ TrCrash ==        \* SIGKILL (or graceful close): what the parent found in the d
                   ELSE "")
           /\ disk' = cls /\ exist' = ex /\ dbKnown' = v.known /\ dbBit' = v.bits /\ recr' = rc
     /\ phase' = "down" /\ memKnown' = FALSE /\ memBit' = {} /\ aidx' = 0 /\ almiss' = FALSE /\ alexist' = FALSE
-    /\ wr' = [p \in Piece |-> "idle"] /\ txn' = NoTxn
+    /\ wr' = [p \in Piece |-> "idle"] /\ txn' = NoTxn /\ UNCHANGED <<sec, wok>>
     /\ l' = l + 1
     /\ UNCHANGED <<cfg, dirty, nosync, seen, rmiss, vdone, obsw>>
+
+\* the same judgement on a consistent copy of the database taken at a tick of the running client (the data files were read
+\* after the copy was taken; content only accumulates in these lives): every tick is a crash instant
+TrDbSnap ==
+    /\ Ev.ev = "dbsnap"
+    /\ LET cls == ClassOf(Ev)
+           ex  == ExistOf(Ev)
+           v   == Val(Ev.dbknown, SetOf(Ev.db))
+           rc  == IF vdone THEN {} ELSE recr \cup {f \in rmiss : ex[f] /\ dbKnown /\ PiecesOf({f}) \cap dbBit # {}}
+           bad == IF v.known THEN {p \in v.bits : ~Claimable(cls, ex, cfg.fo, p)} ELSE {}
+       IN /\ Note(IF ~Ev.reopen THEN "C05.reopen"
+                  ELSE IF \E p \in bad : cfg.fo[p] \cap rc # {} THEN "C05.db.recreated"
+                  ELSE IF bad # {} THEN "C05.db"
+                  ELSE IF ~Explained(v) THEN "C05.reopen.state"
+                  ELSE "")
+          /\ disk' = cls /\ exist' = ex
+    /\ l' = l + 1
+    /\ UNCHANGED <<cfg, dirty, phase, aidx, almiss, alexist, wr, sec, wok, memKnown, memBit, dbKnown, dbBit, txn, nosync, seen, rmiss, recr, vdone, obsw>>
+
+\* the process died at the tick of an earlier copy instead: the database file is that copy now
+TrRewind ==
+    /\ Ev.ev = "rewind" /\ phase = "down"
+    /\ Note(IF ~Ev.reopen THEN "C05.reopen" ELSE "")
+    /\ dbKnown' = Ev.dbknown /\ dbBit' = SetOf(Ev.db) /\ disk' = ClassOf(Ev) /\ exist' = ExistOf(Ev)
+    /\ l' = l + 1
+    /\ UNCHANGED <<cfg, dirty, phase, aidx, almiss, alexist, wr, sec, wok, memKnown, memBit, txn, nosync, seen, rmiss, recr, vdone, obsw>>
+
+\* POST /move-torrent arrives: the record of the source (its bitfield) is what the handler may write
+TrMoveReq ==
+    /\ Ev.ev = "movereq"
+    /\ seen' = seen \cup {Val(TRUE, SetOf(Ev.have))}
+    /\ l' = l + 1 /\ UNCHANGED <<vars, nosync, rmiss, recr, vdone, obsw>>
+
+TrMoveRes ==      \* answer of the target (200 / error / connection lost): information only
+    /\ Ev.ev = "moveres"
+    /\ l' = l + 1 /\ UNCHANGED <<vars, nosync, seen, rmiss, recr, vdone, obsw>>
+
+TrAbsent ==       \* the session came up without the torrent and no record of it ever existed: nothing is claimed
+    /\ Ev.ev = "absent"
+    /\ l' = l + 1 /\ UNCHANGED <<vars, nosync, seen, rmiss, recr, vdone, obsw>>
 
 TrDelete ==       \* data files removed while the client is down (DeleteFiles of Resume, content as observed)
     /\ Ev.ev = "delete" /\ phase = "down"
     /\ disk' = ClassOf(Ev) /\ exist' = ExistOf(Ev)
     /\ l' = l + 1
-    /\ UNCHANGED <<cfg, dirty, phase, aidx, almiss, alexist, wr, memKnown, memBit, dbKnown, dbBit, txn, nosync, seen, rmiss, recr, vdone, obsw>>
+    /\ UNCHANGED <<cfg, dirty, phase, aidx, almiss, alexist, wr, sec, wok, memKnown, memBit, dbKnown, dbBit, txn, nosync, seen, rmiss, recr, vdone, obsw>>
 
 TrPlant ==        \* data files that exist before the torrent is added (stale / partial / truncated / good copies)
     /\ Ev.ev = "plant" /\ phase = "down"
     /\ disk' = ClassOf(Ev) /\ exist' = ExistOf(Ev)
     /\ l' = l + 1
-    /\ UNCHANGED <<cfg, dirty, phase, aidx, almiss, alexist, wr, memKnown, memBit, dbKnown, dbBit, txn, nosync, seen, rmiss, recr, vdone, obsw>>
+    /\ UNCHANGED <<cfg, dirty, phase, aidx, almiss, alexist, wr, sec, wok, memKnown, memBit, dbKnown, dbBit, txn, nosync, seen, rmiss, recr, vdone, obsw>>
 
 TraceNext ==
     /\ l <= Len(Trace)
     /\ \/ TrReset \/ TrUp \/ TrOpen \/ TrOsync \/ TrWBegin \/ TrWEnd \/ TrMem \/ TrCmd \/ TrSettled \/ TrStats
        \/ TrReopenFail \/ TrCrash \/ TrDelete \/ TrPlant
+       \/ TrDbSnap \/ TrRewind \/ TrMoveReq \/ TrMoveRes \/ TrAbsent
 
 TraceSpec == TraceInit /\ [][TraceNext]_tvars
 
